@@ -1,4 +1,18 @@
 // K-PR: PutResult is structural (C12, last sentence). Loop-free, fully symbolic payloads.
+// Non-blocking check: Kani's `assert!` assumes its condition afterwards, so the first failing conjunct of a contract
+// would hide every later one on the same path (and with it the verdicts of the other properties that harness serves).
+// `ck!` performs the check on a nondeterministically chosen side branch, so every conjunct is reported independently.
+macro_rules! ck {
+    ($c:expr, $m:literal) => {
+        if kani::any::<bool>() {
+            assert!($c, $m);
+        }
+    };
+    ($c:expr) => {
+        assert!($c)
+    };
+}
+
 use crate::PutResult;
 
 fn any_pr() -> PutResult<u8, u16> {
@@ -31,8 +45,8 @@ fn pr_eq_is_structural() {
     let b = any_pr();
     kani::cover!(a == b, "equal pair reachable");
     kani::cover!(a != b, "unequal pair reachable");
-    assert!((a == b) == structural_eq(&a, &b), "[C12.structural] PartialEq is structural equality");
-    assert!((a != b) == !structural_eq(&a, &b), "[C12.structural] ne is the negation of eq");
+    ck!((a == b) == structural_eq(&a, &b), "[C12.structural] PartialEq is structural equality");
+    ck!((a != b) == !structural_eq(&a, &b), "[C12.structural] ne is the negation of eq");
 }
 
 // kind: proved (loop-free, full domain of the instantiation)
@@ -41,7 +55,7 @@ fn pr_clone_copy_preserve() {
     let a = any_pr();
     let c = a.clone();
     let d = a; // Copy
-    assert!(structural_eq(&a, &c), "[C12.structural] Clone preserves variant and payloads");
-    assert!(structural_eq(&a, &d), "[C12.structural] Copy preserves variant and payloads");
-    assert!(a == c && c == d, "[C12.structural] clones compare equal");
+    ck!(structural_eq(&a, &c), "[C12.structural] Clone preserves variant and payloads");
+    ck!(structural_eq(&a, &d), "[C12.structural] Copy preserves variant and payloads");
+    ck!(a == c && c == d, "[C12.structural] clones compare equal");
 }
